@@ -57,23 +57,27 @@ Print Assumptions T13_fragment_into_document_refuted.
     [WFup h] = every parent pointer is a live node (a node has at most one parent by construction: one fOwnerNode
     field) + acyclicity as a rank to the root (from every node the parent walk ends) + ownerDocument uniform
     (a non-leaf child carries its parent's fOwnerDocument, a Document owns itself and has no parent; leaf nodes read
-    theirs through the parent), is preserved by EVERY operation of the repaired model with ARBITRARY operands,
+    theirs through the parent), is preserved by every operation of the repaired model with ARBITRARY operands
+    -- except ([covered]) the two that rebuild the VALUE of an attribute node, setAttribute and setNodeValue on an Attr
+    (they release the attribute's children and append a fresh Text; that composition is not proved) --,
     whatever the result (value, exception or skip).  Unconditional thanks to the F18 repair.
     NOT proved (checked on every run by the harness's model-free consistency check and by abs(heap) = reference store
     after every operation): the sibling-chain clauses (firstChild/nextSibling chain = the owned nodes, previousSibling
     its inverse, first.prev = last, flags agree with links). *)
-Theorem T13_wf_preserved_partial : forall h o h' r, WFup h -> step h o = (h', r) -> WFup h' /\ length h <= length h'.
+Theorem T13_wf_preserved_partial : forall h o h' r, WFup h -> covered h o = true -> step h o = (h', r) -> WFup h' /\ length h <= length h'.
 Proof. exact step_G. Qed.
 Print Assumptions T13_wf_preserved_partial.
 
 (** lifted to every heap reachable from n empty documents by any operation sequence *)
-Theorem T13_wf_reachable_partial : forall n l h rs, run_cfg cfg_fixed (init_heap n) l = (h, rs) -> WFup h.
-Proof. intros n l h rs. apply run_WFup. apply WFup_init. Qed.
+Theorem T13_wf_reachable_partial : forall n l h rs, forallb no_attr_value_op l = true ->
+  run_cfg cfg_fixed (init_heap n) l = (h, rs) -> WFup h.
+Proof. intros n l h rs Hl. apply run_WFup; [apply WFup_init|exact Hl]. Qed.
 Print Assumptions T13_wf_reachable_partial.
 
 (** in particular no operation sequence makes a node its own parent (contrast T13_insert_self_refuted) *)
-Theorem T13_no_self_parent : forall n l h rs c, run_cfg cfg_fixed (init_heap n) l = (h, rs) -> c < length h -> parent h c <> Some c.
-Proof. intros n l h rs c E. apply WFup_not_own_parent. eapply run_WFup; [apply WFup_init|exact E]. Qed.
+Theorem T13_no_self_parent : forall n l h rs c, forallb no_attr_value_op l = true ->
+  run_cfg cfg_fixed (init_heap n) l = (h, rs) -> c < length h -> parent h c <> Some c.
+Proof. intros n l h rs c Hl E. apply WFup_not_own_parent. eapply run_WFup; [apply WFup_init|exact Hl|exact E]. Qed.
 Print Assumptions T13_no_self_parent.
 
 (** non-vacuity: a reachable heap with three levels, a moved subtree, a clone and a fragment insertion *)
@@ -83,7 +87,7 @@ Example T13_wf_nonvacuous :
   let '(h, rs) := run_cfg cfg_fixed (init_heap 2) l in
   kids h 2 = [3] /\ kids h 3 = [4; 5] /\ last rs ROk = RErr HIERARCHY /\ WFup h.
 Proof. cbv zeta. destruct (run_cfg _ _ _) as [h rs] eqn:E. split; [|split; [|split]];
-  try (vm_compute in E; injection E as <- <-; vm_compute; reflexivity). eapply run_WFup; [apply (WFup_init 2)|exact E]. Qed.
+  try (vm_compute in E; injection E as <- <-; vm_compute; reflexivity). eapply run_WFup; [apply (WFup_init 2)| |exact E]. reflexivity. Qed.
 
 (** T13_chardata: INDEX_SIZE_ERR exactly when offset > length (insertData, deleteData, substringData, splitText),
     offsets and counts being arbitrary 64-bit values *)
@@ -149,7 +153,8 @@ Example T13_rename_keeps_position :
             OAppend 1 2; OAppend 1 3; OAppend 1 4; OCreate 0 TText [] X; OAppend 3 5; OSetAttr 3 A X;
             ORename 0 3 X [112; 58; 98]%N] in
   let '(h, rs) := run_cfg cfg_fixed (init_heap 1) l in
-  kids h 1 = [2; 6; 4] /\ kids h 6 = [5] /\ kids h 3 = [] /\ n_attrs (nd h 6) = [(A, X)] /\ n_attrs (nd h 3) = [] /\
+  kids h 1 = [2; 8; 4] /\ kids h 8 = [5] /\ kids h 3 = [] /\ n_attrs (nd h 8) = [6] /\ n_oelem (nd h 6) = Some 8 /\
+  n_attrs (nd h 3) = [] /\
   abs h = fst (srun (sinit 1) l).
 Proof. vm_compute. repeat split; reflexivity. Qed.
 
@@ -175,16 +180,18 @@ Print Assumptions T13_rename_ns_error_changes_name_refuted.
     (circular), FIRSTCHILD is set on the head only; every OWNED node is in the chain of its owner; a node that is not
     OWNED has no siblings and no FIRSTCHILD flag.
     Proved for createX, insertBefore, appendChild, removeChild, replaceChild (DocumentFragment operands included,
-    any target incl. Document/Attr, ARBITRARY operands), all character-data operations and the attribute operations
-    ([link_op]); for cloneNode, normalize, splitText and renameNode only T13_wf_preserved_partial (the upward half)
+    any target incl. Document/Attr, ARBITRARY operands), all character-data operations, setAttributeNode,
+    removeAttributeNode and the attribute getters ([link_op], [covered]); not for setAttribute / removeAttribute /
+    setNodeValue on an Attr (they release nodes and rebuild the value); for cloneNode, normalize, splitText and renameNode only T13_wf_preserved_partial (the upward half)
     is proved -- they are compositions of the operations proved here, the composition lemmas are not done. *)
-Theorem T13_wf_preserved : forall h o h' r, WFheap h -> link_op o = true -> step h o = (h', r) ->
+Theorem T13_wf_preserved : forall h o h' r, WFheap h -> link_op o = true -> covered h o = true -> step h o = (h', r) ->
   WFheap h' /\ length h <= length h'.
 Proof. exact step_GW. Qed.
 Print Assumptions T13_wf_preserved.
 
 (** lifted to every heap reachable from n empty documents by any sequence of those operations *)
-Theorem T13_wf_reachable : forall n l h rs, forallb link_op l = true -> run_cfg cfg_fixed (init_heap n) l = (h, rs) -> WFheap h.
+Theorem T13_wf_reachable : forall n l h rs, forallb (fun o => link_op o && no_attr_value_op o) l = true ->
+  run_cfg cfg_fixed (init_heap n) l = (h, rs) -> WFheap h.
 Proof. intros n l h rs Hl. apply run_WFheap; [apply WFheap_init|exact Hl]. Qed.
 Print Assumptions T13_wf_reachable.
 
@@ -228,3 +235,13 @@ Example T13_wfheap_nonvacuous :
 Proof. cbv zeta. destruct (run_cfg _ _ _) as [h rs] eqn:E. split; [|split; [|split]];
   try (vm_compute in E; injection E as <- <-; vm_compute; reflexivity).
   eapply run_WFheap; [apply (WFheap_init 2)| |exact E]. reflexivity. Qed.
+
+(** T13_attr_node_identity: removeAttributeNode(a) removes THAT node -- it succeeds only when a itself is in the
+    element's attribute map (an attribute of the same name owned by another element or by nobody does not count),
+    and otherwise raises NOT_FOUND_ERR (or NO_MODIFICATION_ALLOWED_ERR) with the heap unchanged.  The attribute map is
+    modelled as the name-sorted vector of Attr node identities searched linearly (the bisection of
+    DOMAttrMapImpl::findNamePoint is not modelled: T13_attrmap stays unproved). *)
+Theorem T13_attr_node_identity : forall h e a h' r, remove_attribute_node h e a = (h', r) ->
+  (r = RNode a /\ In a (n_attrs (nd h e))) \/ ((r = RErr NOT_FOUND \/ r = RErr NO_MOD) /\ h' = h).
+Proof. exact remove_attribute_node_identity. Qed.
+Print Assumptions T13_attr_node_identity.
